@@ -115,7 +115,10 @@ CHECKS.update({
              'the characters at which every rule is in the class / cannot start / must consume a quote -- every ASCII character except the quotes, backtick, '
              '# $ - / [ -- that are equal after collapsing each white-space run to one marker are lexed into the same significant tokens, white-space tokens '
              'at the same places; generic form C11_lex_all_generic for any rule table meeting table_ok) and C11_text_split_run (composed with the splitter: '
-             'the same statements), C11_split (statement sequence invariant under '
+             'the same statements), C11_text_get_type_run (the type of the first statement); WHITE-SPACE TOKENS RE-SPELLED ONE FOR ONE (Props/C11w.v): '
+             'C11w_parse_wsval -- token streams related token by token (keyword tokens up to case and inner white space, white-space tokens up to ANY '
+             'white-space value, everything else equal) are split alike and parsed by all 25 passes into related trees with equal get_type; the callbacks '
+             'regenerated from grouping.py cannot tell two white-space values apart (C11w_callbacks_ws_safe); C11_split (statement sequence invariant under '
              'the skeleton relation; the spelling guard is derived: C11_split_guard_free; one guard left), C11_group_matching (bracket '
              'matching commutes with taking shapes, every class). Two refutations remain (comment after a terminator; trailing comment '
              'followed by a line break). Whitespace invariance of the generic _group driver and the ad-hoc passes is covered by the '
